@@ -180,22 +180,38 @@ Proof. exact FloatExamples.ex_clear_order. Qed.
    the shipped scheduler [a] (in particular overbook with RAM overcommit, the only configuration in which the
    pool-level loop finds victims, C04_sim_kill_justified); every tick of [sim_run] is such a [sim_tick]
    (C04_sim_run_ticks). Any rounding function. For the pool at position [i] ([p] before the tick, [p']
-   after it; same id and capacity): [act4] are its containers as they enter the killer in this tick (distinct
-   ids), [act5] as they leave it; the running ones among [act5] are the pool's active list after the tick, the
+   after it; same id and capacity), ticked with its share [ss], [asgs] of the commands of the tick and a
+   container-id counter [next] not below the counter of the state. The containers the killer sees ARE the
+   containers of the pool (the link, audit C P2):
+     [kept] = the running containers of [p] that no command of [ss] names, in order;
+     [act2] = [kept] followed by the containers the assignments create ([new_containers next asgs]: [new_container]
+              with ids next, next+1, ..); they are ticked starting from the usage figure [cons3] = the usage of [p],
+              recomputed over [kept] if the tick has a suspension;
+     [act4] = [map (cstep C) act2]: each after its [ctick] of this tick ([cstep], Proofs/SimTimelineFacts.v) - the
+              containers as they enter the killer (distinct ids), [cons4] the usage figure the pool has tracked;
+     [act5] as they leave the killer; the running ones among [act5] are the pool's active list after the tick, the
    finished ones are its results of the tick; and the killer's run satisfies the conclusion of
    C11_oom_killer_spec with the capacity of the pool: own-limit kills first, then a prefix of the descending
    score order, no candidate with a strictly higher score survives a victim, every kill happened while the
    tracked usage exceeded the capacity, the loop stops as soon as it fits. *)
 From Eudoxia Require Import Model.Executor Model.Sched Model.Simulator Proofs.PriorityPoolRunFacts
-  Proofs.SimCorollaryFacts.
+  Proofs.SimCorollaryFacts Proofs.LedgerFacts Proofs.SimTimelineFacts Proofs.AuditRepairFacts.
 
 Theorem C11_sim_kills : forall C a np cpu ram t s newp s' lg i p,
   sim_reach C a 0%Z (init_sim C np cpu ram) t s ->
   sim_tick C a t s newp = Ok (s', lg) ->
   nth_error (e_pools (sm_exec s)) i = Some p ->
-  exists p' res w4 cons4 act4 w5 cons5 act5,
+  exists p' res next act2 w3 cons3 w4 cons4 act4 w5 cons5 act5,
+    let ss := filter (fun x => (su_pool x =? Z.of_nat (p_id p))%Z) (tl_susp lg) in
+    let asgs := filter (fun x => (a_pool x =? Z.of_nat (p_id p))%Z) (tl_asgs lg) in
+    let kept := filter (fun c => negb (memb (c_id c) (map su_cid ss))) (p_active p) in
     nth_error (e_pools (sm_exec s')) i = Some p' /\ p_id p' = p_id p /\ p_max_ram p' = p_max_ram p /\
     incl res (tl_results lg) /\
+    (e_next (sm_exec s) <= next)%nat /\
+    act2 = kept ++ new_containers next asgs /\
+    cons3 = match ss with [] => p_consumed p | _ :: _ => reconcile C kept end /\
+    tick_active C w3 cons3 act2 = Ok (w4, cons4, act4) /\
+    act4 = map (cstep C) act2 /\
     NoDup (map c_id act4) /\
     oom_killer C (p_max_ram p) w4 cons4 act4 = Ok (w5, cons5, act5) /\
     p_active p' = filter (fun c => negb (c_completed c)) act5 /\
@@ -214,8 +230,33 @@ Theorem C11_sim_kills : forall C a np cpu ram t s newp s' lg i p,
       cons5 = fold_left (cons_after C) vs cons1 /\
       Forall (fun q => Qle_bool q (p_max_ram p) = false) (kill_trace C cons1 vs) /\
       (k = length (victims_order C act1) \/ Qle_bool cons5 (p_max_ram p) = true).
-Proof. exact SimCorollaryFacts.C11_sim_kills. Qed.
+Proof. exact AuditRepairFacts.sim_kills_linked. Qed.
 Print Assumptions C11_sim_kills.
+
+(* the link is what fixes the victims. Tick 0, pool 0 of the witness run below: audit C satisfied the body WITHOUT
+   the link with k = 0, vs = [] ("no pool-level victim") by a fabricated container 0
+   (AuditExamplesC.C04.C11_sim_kills_body_accepts_no_pool_level_victim) although the run had one. Seven conjuncts of
+   the body above (the link, the two kill equations, the running list of the pool after the tick) force a victim *)
+Example C11_sim_kills_link_forces_victim :
+  forall p' next act2 act4 act1 act5 k vs,
+    nth_error (e_pools (sm_exec SimCorExamples.k1)) 0 = Some p' ->
+    act2 = filter (fun c => negb (memb (c_id c) (map su_cid
+                     (filter (fun x => (su_pool x =? Z.of_nat (p_id LinkExamples.kp))%Z)
+                             (tl_susp SimCorExamples.klg0))))) (p_active LinkExamples.kp)
+           ++ new_containers next
+                (filter (fun x => (a_pool x =? Z.of_nat (p_id LinkExamples.kp))%Z) (tl_asgs SimCorExamples.klg0)) ->
+    act4 = map (cstep SimCorExamples.Ck) act2 ->
+    act1 = map (kill_when over_limit) act4 ->
+    map c_id vs = firstn k (victims_order SimCorExamples.Ck act1) ->
+    act5 = map (kill_if (firstn k (victims_order SimCorExamples.Ck act1))) act1 ->
+    p_active p' = filter (fun c => negb (c_completed c)) act5 ->
+    k <> 0%nat /\ vs <> [].
+Proof. exact AuditRepairFacts.LinkExamples.link_forces_pool_level_victim. Qed.
+
+(* ([LinkExamples.kp] is pool 0 of the state before that tick) *)
+Example C11_sim_kills_link_pool :
+  nth_error (e_pools (sm_exec SimCorExamples.k0)) 0 = Some LinkExamples.kp.
+Proof. exact AuditRepairFacts.LinkExamples.k_pool0_is. Qed.
 
 (* non-vacuity: the overbook run of C04_sim_witness (RAM overcommit, two containers of 6 GB with 10 GB
    allocations on a pool of 10 GB): the theorem applies to tick 0 and pool 0; container 0 (first of two equal
